@@ -60,9 +60,10 @@ class PickleQueue:
         self.on_put = None
 
     def put(self, obj, block=True, timeout=None):
-        self.items.append(pickle.dumps(obj))
-        if self.on_put:
-            self.on_put(obj)
+        data = pickle.dumps(obj)
+        if self.on_put and self.on_put(obj) == "drop":
+            return          # an item for a flow the driver does not track further (counted by on_put)
+        self.items.append(data)
 
     def get(self, block=True, timeout=None):
         self.polls += 1
@@ -241,6 +242,8 @@ class Scripted:
         import mitmproxy.http
         b = self.behaviour
         self.world.hook_calls += 1
+        if flow.id != self.world.cur_flow_id:
+            return None     # the script is about one flow; other flows in the queue pass untouched
         if b == "ignore":
             return None
         if b == "take":
@@ -294,6 +297,7 @@ class World:
         self.urls = {}
         self.name2kind = {}
         self.hook_calls = 0
+        self.cur_flow_id = None
         for s in (1, 2):
             sess = self.sm.create_session({
                 "session_id": UUID(int=0x1000 + s), "secure_session_id": UUID(int=0x2000 + s),
@@ -516,6 +520,7 @@ class FlowDriver:
         self.main = None           # last main-process HippoHTTPFlow built for this flow
         self.put_log = []          # (kind, flow id, main-side projection, main-side digest) per to_proxy put
         self.on_put = self._on_put   # a multi-flow run installs a dispatcher instead
+        self.others = []             # other flows' events around ours: {"flow", "r", "back"}
 
     # ---- inputs -----------------------------------------------------------------------
     def _request(self, browser, hdr):
@@ -604,18 +609,34 @@ class FlowDriver:
         self.w.rt.proxy.responseheaders(f)
         self.w.rt.proxy.response(f)
 
+    def enqueue_other(self, raises):
+        """HttpFlow!EnqueueOther: another flow is intercepted by the real proxy-side hook.  Handling
+        it raises out of the pump (a Seed request whose body is not LLSD) or does not (unknown URL)."""
+        from mitmproxy.test import tflow
+        tmpl = FlowDriver(self.w, ["seed", 1, 1], req_fault="cap") if raises else FlowDriver(self.w, ["none", 0, 0])
+        f = tflow.tflow(req=tmpl._request(False, False))
+        self.others.append({"flow": f, "r": bool(raises), "back": 0})
+        self.w.rt.proxy.request(f)
+
     def _on_put(self, obj):
         kind, fid, _state = obj
+        for o in self.others:
+            if o["flow"].id == fid:
+                o["back"] += 1
+                return "drop"       # other flows are not followed beyond their hand-back
         hf = self.w.rt.built.get(fid)
-        if hf is None or fid != self.flow.id:
+        if hf is None or self.flow is None or fid != self.flow.id:
             self.put_log.append([kind, False, None, None])
             return
         # at this instant resume()/preempt() has already produced the state; the main-side
         # object still shows what was handed back
         self.put_log.append([kind, True, self.w.project_main(hf, self), digest_flow(hf.flow)])
 
-    async def handle(self, cfg):
+    async def handle(self, cfg, drain=True):
+        """One turn of the main process: as MITMProxyEventManager.run does, pump (exceptions caught)
+        until the queue is empty (drain) -- or pump exactly once (multi-flow walks)."""
         w = self.w
+        w.cur_flow_id = self.flow.id if self.flow is not None else None
         for a, b in zip(w.addons, cfg["addons"]):
             a.behaviour = b
         w.AddonManager._SWALLOW_ADDON_EXCEPTIONS = bool(cfg["swallow"])
@@ -633,14 +654,17 @@ class FlowDriver:
                 evt.subscribe(_raising_subscriber)
                 evt.subscribe(_idle_subscriber, predicate=_raising_subscriber)
                 subs.append(evt)
-        try:
-            await w.em.pump_proxy_event()
-        except Exception as e:  # an exception of the implementation is an observation
-            st, res = "raise", type(e).__name__ + ": " + str(e)[:120]
+        for _ in range(16 if drain else 1):
+            if drain and w.ctx.from_proxy_queue.empty():
+                break
+            try:
+                await w.em.pump_proxy_event()
+            except Exception as e:  # an exception of the implementation is an observation
+                st, res = "raise", type(e).__name__ + ": " + str(e)[:120]
         for evt in subs:
             evt.unsubscribe(_raising_subscriber)
             evt.unsubscribe(_idle_subscriber)
-        self.main = w.rt.built.get(self.flow.id)
+        self.main = w.rt.built.get(self.flow.id) if self.flow is not None else None
         for a in w.addons:
             a.behaviour = "ignore"
         return st, res, w.hook_calls - before
@@ -683,19 +707,29 @@ class FlowDriver:
 
     def observe(self):
         w = self.w
-        fromq = []
+        fromq, order = [], []
+        oid = {o["flow"].id: "o%d" % (i + 1) for i, o in enumerate(self.others)}
         for b in w.ctx.from_proxy_queue.items:
             ev, state = pickle.loads(b)
-            fromq.append([ev, self._project_state(state)])
+            fid = state.get("id") if isinstance(state, dict) else None
+            if fid in oid:
+                order.append(oid[fid])
+            else:
+                order.append("me")
+                fromq.append([ev, self._project_state(state)])
         toq = []
         for b in w.ctx.to_proxy_queue.items:
             kind, fid, state = pickle.loads(b)
-            toq.append([kind, fid == self.flow.id, self._project_state(state)])
-        px = [bool(self.flow.intercepted), w.project_proxy(self.flow, self)] if self.flow is not None else None
+            toq.append([kind, self.flow is not None and fid == self.flow.id, self._project_state(state)])
+        if self.flow is not None:
+            px = [bool(self.flow.intercepted), w.project_proxy(self.flow, self)]
+        else:       # our flow does not exist yet
+            px = [False, ["unset", 0, 0, False, False, True, False, "orig", "none"]]
         mf = None
         if self.main is not None:
             mf = [bool(self.main.taken), bool(self.main.resumed), w.project_main(self.main, self)]
-        return {"fromQ": fromq, "toQ": toq, "px": px, "mf": mf}
+        oth = [[("o%d" % (i + 1)) in order, o["back"]] for i, o in enumerate(self.others)]
+        return {"fromQ": fromq, "toQ": toq, "px": px, "mf": mf, "oth": oth, "order": order}
 
 
 def expected_obs(dst):
@@ -703,10 +737,15 @@ def expected_obs(dst):
     mf = None
     if dst["mf"][0] != "none":
         mf = [dst["mf"][1], dst["mf"][2], dst["mf"][3]]
+    oth = dst.get("oth", [])
+    order = (["o%d" % (i + 1) for i, o in enumerate(oth) if o[2] and o[1] == "ahead"] + (["me"] if dst["fromQ"] else [])
+             + ["o%d" % (i + 1) for i, o in enumerate(oth) if o[2] and o[1] == "behind"])
     return {"fromQ": [[e, m] for e, m in dst["fromQ"]],
             "toQ": [[k, True, m] for k, _ev, m in dst["toQ"]],
             "px": [dst["px"][1], dst["px"][2]],
-            "mf": mf}
+            "mf": mf,
+            "oth": [[o[2], o[3]] for o in oth],     # still queued?, callbacks put
+            "order": order}
 
 
 def _lookahead(path):
@@ -765,6 +804,8 @@ async def _run_path(path, n_addons, compare_from=None, brand_new=False):
                 out = {"exc": False, "res": "bad" if a["bad"] else "ok"}
             elif n == "SessionCloses":
                 world.close_session(a["s"])
+            elif n == "EnqueueOther":
+                fd.enqueue_other(a["r"])
             else:
                 raise common.MachineryError("unknown action " + n)
         except common.MachineryError:
@@ -779,7 +820,7 @@ async def _run_path(path, n_addons, compare_from=None, brand_new=False):
 
 def _diff(exp, got):
     bad = []
-    for k in ("fromQ", "toQ", "px", "mf"):
+    for k in ("fromQ", "toQ", "px", "mf", "oth", "order"):
         if exp[k] != got[k]:
             bad.append((k, exp[k], got[k]))
     return bad
@@ -831,7 +872,7 @@ def _replay_chunk(edge_ids):
 # ----------------------------------------------------------------------------------------
 INVARIANTS = ["AtMostOnce", "BackUnlessOwned", "OwnedNotBack", "ResumedIffBack", "TakenExclusive", "Causal",
               "HeldUntilApplied", "RoutingStable", "FlagsStable", "AttributionKept", "AppliedAttribution",
-              "InjectedSurvives", "RedirectFollowsRewrite", "GoneReadsNone"]
+              "InjectedSurvives", "RedirectFollowsRewrite", "OthersExactlyOnce", "GoneReadsNone"]
 
 
 def _tla_set(xs):
@@ -840,9 +881,9 @@ def _tla_set(xs):
 
 def _consts(c):
     return ("CONSTANTS\n Kinds = %s\n Pairs = %s\n Behaviours = %s\n NAddons = %d\n Faults = %s\n MaxCalls = %d\n"
-            " BadApply = %s\n CloseSet = %s\n Depth = 16\nCONSTRAINT Bound\nVIEW View\n" % (
+            " BadApply = %s\n CloseSet = %s\n MaxOthers = %d\n Depth = 16\nCONSTRAINT Bound\nVIEW View\n" % (
                 _tla_set(c["kinds"]), _tla_set(c["pairs"]), _tla_set(c["behaviours"]), c["naddons"],
-                _tla_set(c["faults"]), c["maxcalls"], _tla_set(c["bad"]), _tla_set(c.get("close", []))))
+                _tla_set(c["faults"]), c["maxcalls"], _tla_set(c["bad"]), _tla_set(c.get("close", [])), c.get("others", 0)))
 
 
 def _recheck_fresh(b, n_addons):
@@ -949,6 +990,9 @@ def run(chk: Check):
         "whether an injected asset response is handed to the main process at all is left open (not explored)",
         "server responses have status 200; no asset is served from the local asset repo; no cached EventQueueGet reply",
         "B2: a temporary cap URL / an EventQueueGet URL is used by one flow per world (consumed / cached otherwise)",
+        "other flows waiting in the proxy->main queue around ours are plain request events (unknown URL, or a Seed request "
+        "whose body is not LLSD and whose handling raises out of the pump); the main process pumps until the queue is empty, "
+        "exceptions caught, as MITMProxyEventManager.run does; how many events one pump takes is left open",
         "addons that change the attribution either clear it (flow.cap_data = None) or set one fixed other cap of the universe",
         "SessionCloses = SessionManager.close_session + the session's and regions' objects unreferenced and collected "
         "(driver drops its references and runs gc.collect(); still-referenced objects are a MachineryError); B1 explores one "
@@ -965,6 +1009,8 @@ def run(chk: Check):
         _b1(chk, dict(kinds=["normal", "proxyonly"], pairs=[22], behaviours=B6, naddons=2, faults=["none"], maxcalls=1, bad=[False]), "N2")
         _b1(chk, dict(kinds=["normal", "seed", "none"], pairs=[21], behaviours=["ignore", "take", "takeResume", "inject", "raise"],
                       naddons=1, faults=["none"], maxcalls=1, bad=[False], close=[1, 2]), "close")
+        _b1(chk, dict(kinds=["eq"], pairs=[21], behaviours=["ignore", "take", "raise"], naddons=1, faults=["none", "cap"], maxcalls=0,
+                      bad=[False], others=2), "queue")
         _b2(chk, 96, 4, "walks")
     else:
         owned = [k for k in KINDS if k not in ("none", "login", "asset")]
@@ -977,6 +1023,8 @@ def run(chk: Check):
                       faults=["none", "cap"], maxcalls=1, bad=[False], close=[1, 2]), "close")
         _b1(chk, dict(kinds=KINDS, pairs=[12], behaviours=["ignore", "clearcap", "setcap", "take", "takeResume", "inject", "handled"],
                       naddons=1, faults=F3, maxcalls=1, bad=[False]), "recap")
+        _b1(chk, dict(kinds=["normal", "eq", "seed", "wrapper"], pairs=[21], behaviours=["ignore", "take", "raise", "inject", "takeResume"],
+                      naddons=1, faults=["none", "cap"], maxcalls=0, bad=[False], others=2), "queue")
         _b2(chk, 1600, 5, "walks")
     if chk.cov.get("b1_raise_points_expected", 0) and not chk.cov.get("b1_raise_points_reached", 0) and not chk.violations:
         raise common.MachineryError("no scripted fault ever made pump_proxy_event raise: fault injection is vacuous")
@@ -987,7 +1035,7 @@ def run(chk: Check):
 # B2: random multi-flow runs, one recorded trace per flow
 # ----------------------------------------------------------------------------------------
 TRACE_CFG = ("SPECIFICATION TraceSpec\nCONSTANTS\n Kinds = %s\n Pairs = {11, 12, 21, 22}\n Behaviours = %s\n NAddons = 3\n"
-             " Faults = {\"none\", \"cap\", \"logger\"}\n MaxCalls = 1000\n BadApply = {FALSE, TRUE}\n CloseSet = {1, 2}\n"
+             " Faults = {\"none\", \"cap\", \"logger\"}\n MaxCalls = 1000\n BadApply = {FALSE, TRUE}\n CloseSet = {1, 2}\n MaxOthers = 0\n"
              "POSTCONDITION TraceAccepted\nCHECK_DEADLOCK FALSE\n" % (_tla_set(KINDS), _tla_set(BEHAVIOURS)))
 
 
@@ -1010,6 +1058,8 @@ def _new_puts(rec):
 
 def _mf(rec):
     fd = rec.fd
+    if fd.main is None:     # the implementation never built / lost the flow: an observation
+        return []
     return [bool(fd.main.taken), bool(fd.main.resumed), fd.w.project_main(fd.main, fd)]
 
 
@@ -1110,10 +1160,19 @@ async def _random_run(seed, n_flows, n_addons=3):
                 raise common.MachineryError("MITMProxyEventManager._asset_server_proxied is gone")
             cfg = {"addons": [rng.choice(BEHAVIOURS) for _ in range(n_addons)], "swallow": rng.random() < 0.6,
                    "fault": fault, "logger": logger, "owner": fd.owner, "proxied": proxied}
-            await fd.handle(cfg)
-            puts = _new_puts(rec)
-            order_to.extend((rec,) for _ in puts)
-            rec.events.append({"ev": "Handle", "cfg": cfg, "puts": puts, "mf": _mf(rec)})
+            n_before = len(q_from.items)
+            await fd.handle(cfg, drain=False)
+            # the law is per flow: whatever number of queued events this pump took (one on the unchanged
+            # tree), each of them must have been handled and handed back -- recorded for each
+            taken_now = [rec]
+            for _ in range(max(0, n_before - len(q_from.items) - 1)):
+                if order_from:
+                    taken_now.append(order_from.pop(0))
+            for r2 in taken_now:
+                r2.fd.main = world.rt.built.get(r2.fd.flow.id)
+                puts = _new_puts(r2)
+                order_to.extend((r2,) for _ in puts)
+                r2.events.append({"ev": "Handle", "cfg": cfg, "puts": puts, "mf": _mf(r2)})
         elif what == "call":
             rec.calls += 1
             op = rng.choice(["take", "resume", "resume", "preempt"])
